@@ -10,6 +10,7 @@ from .. import framework as fw
 
 ID = "C08"
 MODULE = "LasioProofs.Props.C08"
+EXTRA_MODULES = ["LasioProofs.Props.C08File"]
 ALPHA = "07+-.,eE_ x/:1"          # 14 symbols: two digit classes, signs, both marks, exponent markers, '_', blank, letter, '/', ':'
 RULE = ("(a) exhaustive: every string up to length L (quick 5, thorough 6) over the 14-symbol alphabet {0,7,1,+,-,.,',',e,E,_,blank,x,/,:} "
         "-> SectionParser.num on the real code vs the Lean model vs an independent oracle (hand-written DFA for the literal grammar + "
@@ -599,6 +600,13 @@ def run(run):
         run.dist["regex-steps"] = len(texts)
     # (f) through lasio.read
     through_read(run)
+    # (g) the TYPED object of a whole read: model LasioModel/ReadObj.lean (theorems Props/C08File.lean) vs lasio.read, item by item
+    # (mnemonic, unit, type and value, description) in every section, generated documents + the example corpus
+    if run.model is not None:
+        from .. import readobj_stream
+        counts = readobj_stream.run_stream(run, run.budget(500, 6000), corpus=True)
+        for k, v in counts.items():
+            run.dist["ro:" + k] += v
 
 
 def search(run, disagreements):
